@@ -1,7 +1,7 @@
 from common import COMMON_TB
 
 CONFIG = {
-    "lean_modules": ["SA.Props.C11"],
+    "lean_modules": ["SA.Props.C11", "SA.Props.C11Cover"],
     "level_text": "Partial proof. The client's Handshake (all eleven phases, every retry loop, both codec searches, the "
                   "fragment size search) is modelled in Lean as a pure function of an abstract path oracle (what the client "
                   "concludes from each probe). Proved for EVERY oracle and domain: C11_terminates - the repaired handshake "
@@ -15,11 +15,25 @@ CONFIG = {
                   "fragment probe leaves the search state unchanged: never ends), C11_witness_raw_inverted (TXT: Raw test "
                   "passes => nil encoder), C11_witness_mismatch_accepted (corrupted test reply counted as success). Every "
                   "loop bound, order, constant and the decisive shapes are regenerated from the source (SA.Gen.C11). "
+                  "Probe coverage (SA.Props.C11Cover, decided over the regenerated TestPatterns()/DownloadCodecCheck tables "
+                  "and C08's codec models): C11_patterns_cover_b32/_b91/_b128 - every byte these encoders can emit, for any "
+                  "input, occurs in one of the codec's upstream test patterns, hence (C11_patterns_sound_pointwise) a pointwise "
+                  "path map that returns the patterns unchanged delivers every encoded payload unchanged; "
+                  "C11_patterns_miss_b64/_b64u/_b85 with C11_unprobed_characters - the Base64/Base64u patterns lack the "
+                  "digits 3-8 and the Base85 pattern lacks 'z' (witness inputs 0xE0 and 00000000); C11_downcheck_misses / "
+                  "C11_downcheck_raw - the download check exercises 27 of 32 Base32 characters ... 41 of 128 Base128 "
+                  "characters and 36 of 256 raw byte values (never the quote, semicolon, backslash, dot); C11_gap_explicit - "
+                  "the map 3->4 passes every Base64 pattern and corrupts the payload 0xE0. "
                   "The model is tied to the code by running the real Handshake() against the real ServerDnsListener over a "
                   "simulated path for the whole path family and comparing result, parameters and query count.",
     "level_note": "Not a theorem: 'the probes that passed imply that arbitrary payloads are carried' (C11_full is stated, "
-                  "not proved; missing links: pattern coverage of the codec alphabets, DownloadCodecCheck exercising only 48 "
-                  "byte values, no probe of the upstream fragment size). For the simulated path family this part is "
+                  "not proved). The missing links are now explicit and machine-checked: pattern coverage holds for "
+                  "Base32/91/128 and fails for Base64/64u/85 (listed characters); no downstream codec's alphabet is covered "
+                  "by the download check; paths that are not pointwise character maps are not covered by any table fact; the "
+                  "upstream fragment size is computed, not probed (C09_payload_within_mtu_fits shows the question is always "
+                  "well-formed, not that the path carries it). These coverage gaps are weaknesses of the probes inherited "
+                  "from iodine's pattern strings; no path of the simulated family exploits them (its maps are case folding "
+                  "and 7-bit stripping), so they are not findings. For the simulated path family this part is "
                   "established only by the end-to-end monitor (1 byte .. 3 fragments, sequence / random / DNS-special "
                   "bytes, each direction and both at once, over the same path after every successful handshake): sampled "
                   "over the family in the quick tier, exhaustive over the 18432-path family in the thorough tier, not for "
@@ -31,8 +45,11 @@ CONFIG = {
                   "EDNS0 'probe' never sends an EDNS0 query).",
     "technique": "Lean 4 proof (decreasing measure, phase-wise inversion) + kernel-checked witnesses + model/code differential "
                  "correspondence over a simulated DNS path family + end-to-end data monitor",
-    "components": [{"name": "dnshs", "timeout": {"quick": 300, "thorough": 1500}}],
-    "rule": "dnshs: path = query-name map (identity / lower / upper / per-position random case from a seed) x 7-bit strip x "
+    "components": [{"name": "patterns", "timeout": {"quick": 60, "thorough": 60}},
+                   {"name": "dnshs", "timeout": {"quick": 300, "thorough": 1500}}],
+    "rule": "patterns: the real TestPatterns() of 7 codecs, DownloadCodecCheck, Encode(DownloadCodecCheck) per codec and "
+            "the codings of the 4 witness inputs against the regenerated tables / C08 models (19 ops, exhaustive). "
+            "dnshs: path = query-name map (identity / lower / upper / per-position random case from a seed) x 7-bit strip x "
             "subset of the 8 record types answered x answer size limit {512,600,768,1000,1500,4096,8192,none} x unanswered "
             "types dropped (real net.Error timeout) or SERVFAIL x tunnel domain (4/11/81 chars) x answer-side map (identity / "
             "lower-case / 7-bit on TXT strings, CNAME/MX/SRV targets, NULL/PRIVATE bytes). quick: all 8 single-type paths x "
@@ -43,6 +60,7 @@ CONFIG = {
             "without panic; on success the server mirrors codecs and fragment size and data of 1, 2, f-1, f, f+1, 3f bytes "
             "(3 byte patterns) round-trips upstream, downstream and in both directions at once over the same path",
     "trusted_base": COMMON_TB + ["model SA.Model.DnsHandshake hand-written; tied by per-path comparison of outcome, negotiated tuple and query count",
+                                 "pattern / check-string tables extracted statically (SA.Gen.C11Pat; Base85's loop evaluated by shape) and compared with the running code by the patterns component; codec models are C08's",
                                  "probe outcomes (oracle table) are classified by the harness from the real exchanges with the real decoders",
                                  "path simulator in the harness (go/harness/c11_dnshs.go): packed-wire character maps, type filter, size limit",
                                  "miekg/dns Pack/Unpack, the real codecs and serializer run unmodified under the handshake"],
